@@ -17,6 +17,7 @@ QUICK_RUNS = {
     "C09": 3000, "C10": 4000, "C11": 3000, "C14": 320, "C15": 400, "C16": 400, "C20": 4000,
 }
 CHUNK = 8
+IO_PROPS = {"C14", "C15", "C16"}
 
 
 def _worker(args):
@@ -56,6 +57,7 @@ class Agg:
         self.words = set()
         self.aborts = {}
         self.states = set()
+        self.visited = set()
         self.shapes = set()
         self.viol = []  # (idx, violation)
         self.harness = []
@@ -73,6 +75,7 @@ class Agg:
         for k, v in r.get("probes", {}).items():
             self.probes[k] = self.probes.get(k, 0) + v
         self.cases.update(r.get("cases", ()))
+        self.visited.update(r.get("state_hashes", ()))
         if r.get("word"):
             self.words.add(r["word"])
         if r.get("idx", 0) >= runner.SYSTEMATIC_BASE:
@@ -141,7 +144,7 @@ def run_batch(prop: str, tier: str, seed: int, n_runs: int | None, budget_s: flo
                 start, n = sys_left.pop(0)
                 pending.add(ex.submit(_worker, (prop, seed, tier, start, n)))
             while len(pending) < jobs * 2 and next_idx < total and (deadline is None or time.time() < deadline):
-                n = min(CHUNK, total - next_idx)
+                n = min(2 if prop in IO_PROPS else CHUNK, total - next_idx)
                 pending.add(ex.submit(_worker, (prop, seed, tier, next_idx, n)))
                 next_idx += n
         submit()
